@@ -22,3 +22,14 @@ package utils
 //@   pure
 //@   ensures result0 == uf("strOf", string, e) && (result1 == nil) == uf("hasStr", bool, e)
 //@ end
+
+// read-only accessors of a value (frame PROVED: no store to caller-visible
+// memory); used by the group-by result reader (C04)
+//@ func (*CValueEnclosure).GetFloatValue
+//@   props C04
+//@   pure
+//@ end
+//@ func (*CValueEnclosure).GetUIntValue
+//@   props C04
+//@   pure
+//@ end
